@@ -45,6 +45,18 @@ var translationUnits = []tunit{
 		{"internal/server/authz.go", "mustTriggerCheck"},
 		{"internal/server/authz.go", "matches"},
 	}},
+	{module: "CodeOidc", imports: []string{"AuthModel.Generated.CodeHttp"}, funcs: []tfunc{
+		{"internal/authz/oidc.go", "getCookieName"},
+		{"internal/authz/oidc.go", "getCookieDirectives"},
+		{"internal/authz/oidc.go", "generateSetCookieHeader"},
+		{"internal/authz/oidc.go", "getSessionIDFromCookie"},
+		{"internal/authz/oidc.go", "matchesLogoutPath"},
+		{"internal/authz/oidc.go", "matchesCallbackPath"},
+		{"internal/authz/oidc.go", "encodeHeaderValue"},
+		{"internal/authz/oidc.go", "oidcHandler.encodeTokensToHeaders"},
+		{"internal/authz/oidc.go", "isValidIDPNewTokensResponse"},
+		{"internal/authz/oidc.go", "isValidIDPRefreshTokenResponse"},
+	}, consts: []string{"internal/authz/oidc.go"}},
 }
 
 // Go type -> Lean type
@@ -55,7 +67,7 @@ var typeTable = map[string]string{
 	"[]*configv1.TriggerRule": "List Pb.TriggerRule", "*configv1.Match": "Pb.Match",
 	"*envoy.CheckRequest": "Pb.CheckRequest", "*envoy.AttributeContext_HttpRequest": "Pb.AttributeContext_HttpRequest",
 	"*oidcv1.OIDCConfig": "Pb.OIDCConfig", "*idpTokensResponse": "Pb.IdpTokensResponse",
-	"*oidc.TokenResponse": "Pb.TokenResponse",
+	"*oidc.TokenResponse": "Pb.TokenResponse", "*oidcHandler": "Pb.OidcHandler",
 }
 
 var zeroTable = map[string]string{
@@ -78,6 +90,11 @@ var libTable = map[string]libfn{
 	"strings.EqualFold": {"Go.equalFold", false, "bool"},
 	"len":               {"Go.len", false, "int"},
 }
+
+// results of zero-argument methods and fields that are strings (to tell + on strings from + on ints)
+var stringMembers = map[string]bool{"Port": true, "Hostname": true, "Scheme": true, "Path": true, "Host": true,
+	"GetPath": true, "GetHost": true, "GetScheme": true, "GetHeader": true, "GetPreamble": true, "GetCookieNamePrefix": true,
+	"GetCallbackUri": true, "IDToken": true, "AccessToken": true, "RefreshToken": true, "TokenType": true}
 
 // getters whose result is a map (needed to tell m[k] on a map from xs[i] on a slice without a type checker)
 var mapGetters = map[string]bool{"GetHeaders": true}
@@ -218,7 +235,13 @@ func (c *tctx) usesIn(n ast.Node, name string) int {
 func (c *tctx) goType(e ast.Expr) string {
 	switch x := e.(type) {
 	case *ast.Ident:
-		return c.types[x.Name]
+		if t, ok := c.types[x.Name]; ok {
+			return t
+		}
+		if c.consts[x.Name] {
+			return "string"
+		}
+		return ""
 	case *ast.BasicLit:
 		if x.Kind == token.STRING {
 			return "string"
@@ -243,6 +266,9 @@ func (c *tctx) goType(e ast.Expr) string {
 			if mapGetters[sel.Sel.Name] {
 				return "map[string]string"
 			}
+			if stringMembers[sel.Sel.Name] && len(x.Args) == 0 {
+				return "string"
+			}
 			if fd, ok := c.funcs[sel.Sel.Name]; ok && fd.Type.Results != nil && len(fd.Type.Results.List) == 1 {
 				return typeStr(fd.Type.Results.List[0].Type)
 			}
@@ -255,6 +281,13 @@ func (c *tctx) goType(e ast.Expr) string {
 	case *ast.CompositeLit:
 		if x.Type != nil {
 			return typeStr(x.Type)
+		}
+	case *ast.SelectorExpr:
+		if id, ok := x.X.(*ast.Ident); ok && !c.isLocal(id.Name) && c.consts[x.Sel.Name] {
+			return "string"
+		}
+		if stringMembers[x.Sel.Name] {
+			return "string"
 		}
 	case *ast.BinaryExpr:
 		switch x.Op {
@@ -446,6 +479,8 @@ func (c *tctx) call(x *ast.CallExpr) string {
 		fail(x, "strings.Split with a separator that is not a one-byte literal")
 	case "regexp.MatchString":
 		return "(env.regexpMatch " + c.args(x.Args) + ")"
+	case "url.Parse":
+		return "(env.urlParse " + c.args(x.Args) + ")"
 	case "make":
 		if len(x.Args) >= 1 && strings.HasPrefix(typeStr(x.Args[0]), "map[string]string") {
 			return "Go.Map.empty"
@@ -493,6 +528,16 @@ func (c *tctx) call(x *ast.CallExpr) string {
 		// protobuf getter: nil-safe, pure
 		if strings.HasPrefix(f.Sel.Name, "Get") && len(x.Args) == 0 {
 			return "(" + c.expr(f.X) + ")." + f.Sel.Name
+		}
+		// a method of the receiver's own type that is translated too
+		if id, ok := f.X.(*ast.Ident); ok && c.isLocal(id.Name) {
+			if _, ok := c.funcs[f.Sel.Name]; ok {
+				return "(← " + lname(f.Sel.Name) + " env " + lname(id.Name) + " " + c.args(x.Args) + ")"
+			}
+		}
+		// any other zero-argument method reads through its receiver: partial (nil receiver panics)
+		if len(x.Args) == 0 {
+			return "(← (" + c.expr(f.X) + ")." + f.Sel.Name + "!)"
 		}
 	}
 	fail(x, "call outside the translated subset")
@@ -805,6 +850,9 @@ func (c *tctx) assign(o *out, ind int, x *ast.AssignStmt) {
 			c.types[x.Lhs[0].(*ast.Ident).Name] = "bool"
 			c.types[x.Lhs[1].(*ast.Ident).Name] = "error"
 		}
+		if typeStr(call.Fun) == "url.Parse" && len(names) == 2 {
+			c.types[x.Lhs[0].(*ast.Ident).Name] = "*url.URL"
+		}
 		o.line(ind, "let ("+strings.Join(names, ", ")+") "+arrow+" "+rhs)
 		return
 	}
@@ -986,6 +1034,11 @@ func translateFunc(all map[string]*ast.FuncDecl, consts map[string]bool, fd *ast
 	c := &tctx{funcs: all, consts: consts, loggers: map[string]bool{}, builders: map[string]bool{}, types: map[string]string{},
 		assigned: map[string]bool{}, fd: fd, used: map[string]int{}}
 	var params []string
+	if fd.Recv != nil && len(fd.Recv.List) == 1 && len(fd.Recv.List[0].Names) == 1 {
+		r := fd.Recv.List[0]
+		c.types[r.Names[0].Name] = typeStr(r.Type)
+		params = append(params, "("+lname(r.Names[0].Name)+" : "+c.leanType(r.Type)+")")
+	}
 	for _, p := range fd.Type.Params.List {
 		for _, nm := range p.Names {
 			if isLoggerType(p.Type) {
@@ -1019,6 +1072,9 @@ func translateFunc(all map[string]*ast.FuncDecl, consts map[string]bool, fd *ast
 	rt := "Unit"
 	if len(rts) == 1 {
 		rt = rts[0]
+		if strings.Contains(rt, " ") {
+			rt = "(" + rt + ")"
+		}
 	} else if len(rts) > 1 {
 		rt = "(" + strings.Join(rts, " × ") + ")"
 	}
